@@ -646,6 +646,33 @@ func (s *Sym) evCall(env *Env, x ECall) TV {
 	case "mathmod":
 		a := argv()
 		return TV{T: fmt.Sprintf("(mod %s %s)", a[0].T, a[1].T), S: "Int"}
+	case "mapsFrame": // mapsFrame(keySort, valSort, except): every map object of that type that existed in the old state, except one, is unchanged
+		if env.old == nil || len(x.Args) != 3 {
+			bad("mapsFrame(keySort, valSort, exceptMap) needs an old state")
+		}
+		ks, _ := s.P.specType(x.Args[0].(EIdent).Name)
+		vs, _ := s.P.specType(x.Args[1].(EIdent).Name)
+		ex := s.ev(env, x.Args[2])
+		exT := ex.T
+		if ex.S == "Nil" {
+			exT = "(- 1)" // no exception (the nil map, reference 0, is never written)
+		}
+		dn := "MD:" + sortTag(ks) + ":" + sortTag(vs)
+		vn := "MV:" + sortTag(ks) + ":" + sortTag(vs)
+		dms := "(Array Int (Array " + ks + " Bool))"
+		vms := "(Array Int (Array " + ks + " " + vs + "))"
+		d1, d0 := s.getMap(env.st, dn, dms), s.getMap(env.old, dn, dms)
+		v1, v0 := s.getMap(env.st, vn, vms), s.getMap(env.old, vn, vms)
+		return TV{T: fmt.Sprintf("(forall ((mm Int)) (=> (and (<= mm %s) (or (= mm 0) (not (= mm %s)))) (and (= (select %s mm) (select %s mm)) (= (select %s mm) (select %s mm)))))", s.top(env.old), exT, d1, d0, v1, v0), S: "Bool"}
+	case "slicesFrame": // slicesFrame(elemSort): the backing arrays that existed in the old state are unchanged
+		if env.old == nil || len(x.Args) != 1 {
+			bad("slicesFrame(elemSort) needs an old state")
+		}
+		es, _ := s.P.specType(x.Args[0].(EIdent).Name)
+		name := "E:" + sortTag(es)
+		ms := "(Array Int " + mapSortOfElem(es) + ")"
+		e1, e0 := s.getMap(env.st, name, ms), s.getMap(env.old, name, ms)
+		return TV{T: fmt.Sprintf("(forall ((aa Int)) (=> (<= aa %s) (= (select %s aa) (select %s aa))))", s.top(env.old), e1, e0), S: "Bool"}
 	case "allocTop": // allocation watermark of the current state (all allocated references are <= it)
 		return TV{T: s.top(env.st), S: "Int"}
 	case "isfresh": // reference allocated after the old state
